@@ -165,7 +165,9 @@ def gen_scenario(rng, family):
     g = Scn(rng)
     seed = rng.randrange(1, 1 << 30)
     stay = rng.choice([10, 30, 55, 55, 75, 92])
-    g.head.append(f"cfg seed={seed} stay={stay} waitlimit=800 cblimit=4000 steplimit=400000")
+    # one scenario in six: the pool has been in use for a long time, its submission counters are about to pass 2^16 / 2^31 / 2^32
+    seq0 = "" if seed % 6 else f" seq0={[65530, 65534, 2147483645, 4294967290][(seed // 6) % 4]}"
+    g.head.append(f"cfg seed={seed} stay={stay} waitlimit=800 cblimit=4000 steplimit=400000{seq0}")
     if rng.random() < 0.15:
         g.head.insert(0, "exclude " + rng.choice(["epoll-timerfd", "epoll-timerfd epoll", "epoll-timerfd epoll ppoll"]))
     owner = 1 if family == "owner1" else 0
